@@ -1,3 +1,4 @@
+mod c13;
 mod geocorr;
 mod geosearch;
 mod golden;
@@ -127,6 +128,8 @@ fn main() {
             let mut rng = util::Rng::new(seed ^ 0xC0_55);
             if let Some(cases) = idcorr::cases_for(prop, &mut rng, thorough) {
                 write_cases(prop, &id_cases(&cases), outdir, "Corr.IdCases");
+            } else if prop == "C13" {
+                write_cases(prop, &c13::cases_c13(&mut rng, thorough), outdir, "Corr.CacheCases");
             } else if let Some((cases, module)) = geocorr::cases_for(prop, &mut rng, thorough) {
                 write_cases(prop, &cases, outdir, module);
             } else {
@@ -140,6 +143,7 @@ fn main() {
             let seed: u64 = args[4].parse().unwrap_or(0);
             let mut rng = util::Rng::new(seed ^ 0x5EA7C4);
             let res = match prop.as_str() {
+                "C13" => Some(c13::search_c13(&mut rng, thorough)),
                 "C17" => Some(geosearch::search_c17(&mut rng, thorough)),
                 "C18" => Some(geosearch::search_c18(&mut rng, thorough)),
                 "C19" => Some(geosearch::search_c19(&mut rng, thorough)),
